@@ -25,6 +25,6 @@ for ID in "$@"; do
   RES="$RES\n== ./check $ID quick ==\n$OUT"
 done
 git -C /repo checkout -- . && git -C /repo clean -fdq src
-git -C /verif checkout -- evidence 2>/dev/null   # evidence written while /repo was changed is not evidence about /repo
+git -C /verif checkout -- evidence lean/Rws/Gen 2>/dev/null   # evidence written while /repo was changed is not evidence about /repo
 (cd /verif/harness && RWS_SRC=/repo/src cargo build --offline >/dev/null 2>&1)   # the harness binary must not stay built from the changed tree
 printf "demo pristine: %s\ndemo changed: %s\nsuite with change: %s\n%b\n" "$DP" "$DC" "$SUITE" "$RES" > $S/ran.txt
